@@ -10,11 +10,12 @@ LEVEL = 'other'
 RULES = {
     'C18.R1': 'check dominates push: every builder queues its layer only after compatible_dim(indim) / valid_index(idx) on its own argument succeeded; the two tests mean == in_dim / < in_dim',
     'C18.R2': 'tracked shape = output dimension: a builder whose layer changes the dimension assigns current_shape before recording it (post-operator shape)',
+    'C18.R4': 'extract_range copies (layer, shape) pairs of the selected range, input shape from the operator before it, current shape from the last pair',
     'C18.R3': 'variant/name agreement of builders; read_layers: marker -> variant, one entry per neuron of the preceding linear layer, weights and bias files of one index',
 }
-FLOORS = {'C18.R1': 8, 'C18.R2': 6, 'C18.R3': 14}
+FLOORS = {'C18.R1': 8, 'C18.R2': 6, 'C18.R3': 15, 'C18.R4': 1}
 EXPLANATION = 'Guard and table rules over the Architecture builders and the npz reader.'
-DOES_NOT_DECIDE = ('extract_range index arithmetic and the split-composition clause (value-level), ordering of names for non-zero-padded indices (not settled by the dialect\'s '
+DOES_NOT_DECIDE = ('the split-composition clause of extract_range (value-level), ordering of names for non-zero-padded indices (not settled by the dialect\'s '
                    'documentation), minimum dimension for argmax')
 # builder -> variant
 VARIANT_OF = {'linear': 'Linear', 'partial_relu': 'ReLU', 'partial_leaky_relu': 'LeakyReLU', 'partial_hard_tanh': 'HardTanh', 'partial_hard_sigmoid': 'HardSigmoid', 'argmax': 'Argmax'}
@@ -117,6 +118,63 @@ def run(ctx):
                                 ok = True
         (ctx.ok if ok else ctx.bad)('C18.R1', q, 'Ok iff ' + what if ok else '%s does not test %s' % (q, what), b.span)
     read_layers(ctx, F)
+    extract_range(ctx, F)
+
+
+def extract_range(ctx, F):
+    """extract_range copies (layer, shape) pairs of self.operators[start..end] unchanged, takes the input shape from the operator before
+    `start` (or the architecture's input shape) and the current shape from the last pair copied."""
+    b = ctx.body('C18.R4', 'Architecture::extract_range')
+    if b is None:
+        return
+    R = Resolver(b)
+    problems = []
+    ws = [w for w in assigns(b, R) if w.target[0] == 'field' and w.target[2] == 'current_shape' and is_call(w.target[1], 'Architecture::new')]
+    pushes = [w for w in mut_calls(b, R) if w.callee.name in ('push', 'extend') and w.args[0][0] == 'field' and w.args[0][2] == 'operators' and is_call(w.args[0][1], 'Architecture::new')]
+    if len(pushes) != 1 or pushes[0].callee.name != 'push':
+        problems.append('the copied operators are not pushed one by one from the selected range')
+    else:
+        v = pushes[0].args[1]
+        item = [x for x in walk(v) if is_call(x, 'Iterator::next') and is_call(x[2][0], 'Iterator::take')]
+        if not (v[0] == 'agg' and v[1] == 'tuple' and item and v[2][0] == ('field', item[0], '0') and v[2][1] == ('field', item[0], '1')):
+            problems.append('a copied entry is not the (layer, shape) pair of the source entry')
+        else:
+            it = item[0]
+            take = it[2][0]
+            n = take[2][1]
+            n = n[1] if (n[0] == 'field' and n[2] == '0') else n
+            if not (n[0] == 'bin' and n[1].startswith('Sub') and n[2] == ('param', 'end') and n[3] == ('param', 'start')):
+                problems.append('the number of copied entries is not end - start')
+            if not any(is_call(x, 'Iterator::skip') and x[2][0] == ('field', ('param', 'self'), 'operators') for x in walk(take[2][0])):
+                problems.append('entries are not taken from self.operators after skipping the prefix')
+            if not (len(ws) == 1 and s(ws[0].value) == s(('field', it, '1')) and ws[0].bb == pushes[0].bb or (len(ws) == 1 and s(ws[0].value) == s(('field', it, '1')))):
+                problems.append('current_shape of the extracted architecture is not the shape recorded with the last copied layer')
+    # input shape: self.input_shape for start == 0, else shape of operators[start-1]
+    news = [R.call_args(bb)[0] for bb, t in b.calls_to('Architecture::new')]
+    ok_in = False
+    if len(news) == 1:
+        e = news[0]
+        alts = []
+        if e[0] == 'field' and e[2] == '1' and e[1][0] == 'phi':
+            for a in e[1][2]:
+                if a[0] == 'agg' and a[1] == 'tuple':
+                    alts.append(a[2][1])
+        has_self = any(a == ('field', ('param', 'self'), 'input_shape') for a in alts)
+        has_prev = False
+        for a in alts:
+            if a[0] == 'field' and a[2] == '1' and any(is_call(x, 'Iterator::skip') for x in walk(a)):
+                sk = [x for x in walk(a) if is_call(x, 'Iterator::skip')][0]
+                k = sk[2][1]
+                k = k[1] if (k[0] == 'field' and k[2] == '0') else k
+                has_prev = k[0] == 'bin' and k[1].startswith('Sub') and k[2] == ('param', 'start') and k[3] == ('const', 1)
+        ok_in = has_self and has_prev
+    if not ok_in:
+        problems.append('input shape is not {self.input_shape if start == 0, else the shape recorded with operator start-1}')
+    if problems:
+        for p_ in problems:
+            ctx.bad('C18.R4', 'Architecture::extract_range', p_, b.span)
+    else:
+        ctx.ok('C18.R4', 'Architecture::extract_range', 'copies (layer, shape) of operators[start..end]; input shape from operator start-1 (or the input); current shape = last copied shape', b.span)
 
 
 def read_layers(ctx, F):
@@ -138,6 +196,37 @@ def read_layers(ctx, F):
             if l[0] == 'true' and is_call(l[1], 'PartialEq::eq') and l[1][2][1][0] == 'const' and isinstance(l[1][2][1][1], str):
                 marker = l[1][2][1][1].strip('"')
         seen[marker] = (variant, v, bb, t)
+    # the name pattern must admit every marker the table below knows (reader's regex vs reader's table)
+    import re as _re
+    pats = []
+    for bb, t in b.calls():
+        c = Callee(t['func'])
+        if c.self_base == 'Regex' and c.name == 'new':
+            a = R.call_args(bb)[0]
+            if a[0] == 'const' and isinstance(a[1], str):
+                pats.append((a[1], t['span']))
+    markers = []
+    for bb, t in b.calls_to('PartialEq::eq'):
+        a = R.call_args(bb)
+        if a[1][0] == 'const' and isinstance(a[1][1], str):
+            markers.append(a[1][1].strip('"'))
+    if len(pats) != 1:
+        ctx.undecided('C18.R3', 'read_layers#pattern', 'expected one name pattern', b.span)
+    else:
+        pat = pats[0][0]
+        try:
+            rx = _re.compile(pat)
+            bad = []
+            for m in markers:
+                mm = rx.match('12.%s.npy' % m) or rx.match('12.%s' % m)
+                if not mm or mm.group(2) != m:
+                    bad.append(m)
+            if bad:
+                ctx.bad('C18.R3', 'read_layers#pattern', 'the name pattern %r does not match entries with marker(s) %s: such layers would be skipped silently' % (pat, bad), pats[0][1])
+            else:
+                ctx.ok('C18.R3', 'read_layers#pattern', 'the name pattern admits every marker of the table (%s) and captures it as group 2' % ', '.join(markers), pats[0][1])
+        except _re.error as e:
+            ctx.undecided('C18.R3', 'read_layers#pattern', 'name pattern is not translatable: %s' % e, pats[0][1])
     for marker, variant in table.items():
         site = 'read_layers#marker:' + marker
         if marker not in seen:
